@@ -117,13 +117,21 @@ def impl(case):
     if case["fn"] == "v2w":
         comps, tol, which = a
         kw = {} if tol is None else {"tol": tol}
-        arrs = tuple(np.array(c) for c in comps)
+        import zlib
+
+        def shaped(c, j):
+            # a variance GRID (2-D), a table column sliced as (n, 1), a row (1, n): the rule is about all the elements of a component
+            x = np.array(c)
+            k_ = zlib.crc32((f"shape{j}" + case["op"][:2000]).encode()) % 4
+            n_ = x.size
+            return x if k_ == 0 or n_ == 0 else x.reshape(n_, 1) if k_ == 1 else x.reshape(1, n_) if k_ == 2 else (x.reshape(2, n_ // 2) if n_ % 2 == 0 else x)
+        arrs = tuple(shaped(c, j) for j, c in enumerate(comps))
         before = [x.copy() for x in arrs]
         r = C.call(vd.variance_to_weights, arrs[0] if len(arrs) == 1 else arrs, **kw)
         if C.is_err(r):
             return r
         same = all(np.array_equal(b, x, equal_nan=True) for b, x in zip(before, arrs))
-        ro = tuple(np.array(c) for c in comps)
+        ro = tuple(shaped(c, j) for j, c in enumerate(comps))
         for x in ro:
             x.setflags(write=False)
         r2 = C.call(vd.variance_to_weights, ro[0] if len(ro) == 1 else ro, **kw)
@@ -136,7 +144,7 @@ def impl(case):
         out = r[which] if len(arrs) > 1 else r
         if out.shape != arrs[which].shape:
             return ["err", "ShapeChanged"]
-        return [float(v) for v in out]
+        return [float(v) for v in np.ravel(out)]
     coords, shape2d, data, weights, region, shape, spacing, adjust, centre, drop, unc = a
     key = case["op"][-60:]
     cs = tuple(C.mkarr(c, shape2d, f"{key}c{i}") for i, c in enumerate(coords))
